@@ -236,8 +236,48 @@ def run(ctx):
             lines = ["vm %s %s %s" % (ca, dk, lib.hexs(p)) for p in P]
             lib.correspond(ctx, res, "h_vm", "vm", lines, holds, classify=classify, vm=vm, exe_args=[FONT],
                            rule="vm: every binary opcode x 20x20 boundary operands, unary/cond/bitset grids, all operand bytes of the push forms, random well-formed straight-line programs (depth-aware), stack growth to the limit, malformed programs; each as action and as constraint code, on the direct-threaded and on the call-threaded build" if (ca, dk) == ("a", "d") else "")
+    both_builds(ctx, res)
     return res.as_dict()
 
 
+E2E = [("AwamiNastaliq-Regular.ttf", "awami_tests.txt", 1), ("Padauk.ttf", "my_HeadwordSyllables.txt", 0), ("Scheherazadegr.ttf", "udhr_arb.txt", 1),
+       ("charis_r_gr.ttf", "udhr_eng.txt", 0), ("Annapurnarc2.ttf", "udhr_nep.txt", 0)]
+
+
+def both_builds(ctx, res):
+    """second clause of C07: the direct-threaded and the call-threaded build shape identically (public-API dumps)"""
+    fonts, lines = [], []
+    for fi, (font, text, d) in enumerate(E2E):
+        fp, tp = lib.REPO / "tests" / "fonts" / font, lib.REPO / "tests" / "texts" / text
+        if not fp.exists() or not tp.exists():
+            continue
+        fonts.append(str(fp))
+        rows = [l.strip() for l in tp.read_text(encoding="utf-8", errors="replace").splitlines() if l.strip()]
+        step = 1 if (not ctx.quick() or font.startswith("Awami")) else max(1, len(rows) // 60)
+        for row in rows[::step][: (100000 if not ctx.quick() else 600)]:
+            cps = [ord(c) for c in row[:60] if not 0xD800 <= ord(c) < 0xE000]
+            hx = "".join("%08x" % c for c in cps) or "-"
+            lines.append("F0=%d,0,f;N0=0,24;S0=0,0,-1,0,32,%d,-1,%s;D0" % (len(fonts) - 1, d, hx))
+    if not lines:
+        return
+    a = lib.run_lines([lib.build_harness("h_seg", vm="direct")] + fonts, lines, per_chunk=60)
+    b = lib.run_lines([lib.build_harness("h_seg", vm="call")] + fonts, lines, per_chunk=60)
+    res.harness.append("h_seg direct vs call (implementation only)")
+    res.rules.append("both builds: %d lines of tests/texts through the shipped fonts (Awami right-to-left with collision fixing, Padauk, Scheherazade, Charis, Annapurna), full public-API dump" % len(lines))
+    for l, x, y in zip(lines, a, b):
+        res.evaluations += 1
+        res.distinct.add(l)
+        res.count("both-builds:" + ("same" if x == y else "DIFFERENT"))
+        if x != y or x.startswith(("CRASH", "fault")):
+            k = next((i for i in range(min(len(x), len(y))) if x[i] != y[i]), 0)
+            res.failures.append({"harness": "h_seg", "mode": "both-builds", "line": l, "impl": x[max(0, k - 80):k + 120], "model": y[max(0, k - 80):k + 120], "exe_args": fonts,
+                                 "why": "the direct-threaded and the call-threaded build produce different segments (first difference at column %d of the dump)" % k})
+
+
 def replay(ctx, obj):
+    if obj.get("mode") == "both-builds":
+        a = lib.run_lines([lib.build_harness("h_seg", vm="direct")] + obj["exe_args"], [obj["line"]])[0]
+        b = lib.run_lines([lib.build_harness("h_seg", vm="call")] + obj["exe_args"], [obj["line"]])[0]
+        print("input : %s\ndirect: %s\ncall  : %s\nsame: %s" % (obj["line"][:300], a[:400], b[:400], a == b))
+        return a != b
     return lib.replay_lines(ctx, obj, {"vm": holds})
